@@ -4,7 +4,10 @@ import os, sys, json, time, hashlib, random, glob, traceback
 from jqlib import *
 import build as B
 
-EVID = os.path.join(VERIF, "evidence")
+# evidence/ describes runs against /repo itself; a run against a scratch copy (VERIF_REPO, used by
+# py/mutants.py and py/neutrals.py) writes its evidence under .build/ instead
+EVID = (os.path.join(VERIF, "evidence") if os.environ.get("VERIF_REPO", "/repo") == "/repo"
+        else os.path.join(VERIF, ".build", "evidence-scratch"))
 REPLAYS = os.path.join(VERIF, "replays")
 CORPUS = os.path.join(VERIF, "corpus")
 
@@ -40,6 +43,21 @@ PROPS = {
     "C18": ["C18_printf.v"],
     "C19": ["C19_match.v"],
     "C20": ["C20_depth.v", "C20_fill.v", "C20_width.v"],
+}
+
+# generated tables (Gen/Generated.v) -> the properties whose statements are about what the table encodes.
+# When the translator cannot extract a table from the current source it emits the reference table of the
+# pinned tree and records the table as missing: the tie "by table" is then lost for these properties (a
+# broken obligation), while every property keeps its correspondence runs against the reference model.
+TABLE_PROPS = {
+    "token_tags": ["C06", "C13"], "precedences": ["C06"], "rule_table": ["C06", "C13"], "compound_table": ["C06", "C09"],
+    "keyword_table": ["C13"], "op1_table": ["C13", "C12"], "op2_table": ["C13", "C12"], "quote_chars": ["C13", "C12"],
+    "ws_chars": ["C13"], "comment_chars": ["C13"], "escape_table": ["C13"],
+    "rule_kind_names": ["C02"], "value_tag_names": ["C05"], "truthy_cases": ["C05"], "is_type_names": ["C05"],
+    "copy_cases": ["C09"], "array_proto_names": ["C15"], "obj_proto_names": ["C16"], "str_proto_names": ["C16"],
+    "num_proto_names": ["C16"], "runtime_names": ["C16"], "native_arities": ["C15", "C16"],
+    "printf_directives": ["C18"], "printf_width_limit": ["C18", "C20"], "call_depth_limit": ["C20", "C08"],
+    "fuzzing_loop_limit": ["C07", "C01"], "fill_limit": ["C20", "C09"],
 }
 
 
@@ -137,6 +155,14 @@ def run_check(chk, tier, replay=None):
         okc, chk_summary = B.coqchk_props(chk.props)
         if not okc:
             broken.append({"file": ",".join(chk.props), "theorem": "(coqchk)", "assumptions": chk_summary, "ok": False})
+    not_extracted = []
+    for m in binfo.get("gen_missing", []):
+        for t in m.get("tables", []):
+            not_extracted.append(t)
+            if chk.pid in TABLE_PROPS.get(t, []):
+                broken.append({"file": "Gen/Generated.v", "theorem": "(table %s could not be extracted from the current source: %s; the reference table "
+                               "of the pinned tree was used, so this property is no longer tied to the source through it)" % (t, m.get("reason")),
+                               "assumptions": "", "ok": False})
     if not binfo["coq_ok"]:
         for f in binfo["broken_files"]:
             broken.append({"file": f, "theorem": "(does not compile)", "assumptions": "", "ok": False})
@@ -260,6 +286,7 @@ def run_check(chk, tier, replay=None):
                                "inconclusive": inconclusive, "unsupported_by_model_oracles": unsupported,
                                "oracle_violations": len(failing)},
             "generated_v_changed": binfo["generated_changed"], "build_s": binfo.get("build_s"),
+            "tables_not_extracted": not_extracted,
             "coqchk": chk_summary,
         },
         "assumptions": ["fuel: every theorem about the evaluator excludes the OutOfFuel outcome explicitly",
